@@ -10,7 +10,10 @@ RULE = ("TLC enumerates the case analysis of FieldRules.tla as a state space (Fi
         "*nested, slice element, map element) x type (1-2 fields: kind - every integer width, floats, string, bool, []string, "
         "[]int - x optional/optional=dep/optional=!dep x default in/out of range x range with open/closed/unbounded/fractional "
         "ends x options x string x pointer) x input class per field (absent, null, below/at/inside/at/above the range ends, "
-        "below/at/above the ends of the kind's width, in/out of options, numeric string, wrong type, overflow, empty, lists) "
+        "below/at/above the ends of the kind's width, in/out of options, numeric string, wrong type, overflow, empty, lists; "
+        "decimal families: float32/float64 fields x ranges and options with ends 0.1/0.3/0.7 x numbers in twentieths below/at/"
+        "above those ends; multimap families (form, header): a key - of a field, of a dependency, bound by no field - with no "
+        "value at all / with two values, list fields filled from repeated parameters) "
         "x extra keys x spelling of the document keys (conf: capitalised) x map keys (spelled like a field of the element / "
         "the map field). Each vector is built with reflect.StructOf (tags included), rendered for its source and executed on "
         "the real unmarshaller twice per trace in different orders (plus a globally shuffled process); after every accepted "
@@ -19,7 +22,7 @@ RULE = ("TLC enumerates the case analysis of FieldRules.tla as a state space (Fi
         "Sequences of calls: TLC generates scripts (unmarshal and keep / write into a held target / forget) from the memory "
         "model FieldRulesAlias.tla, one per reachable memory state; they are replayed on groups of vectors of one struct type "
         "and every held target is re-read after every step (TargetsAreIsolated). distinct = distinct vectors executed "
-        "(quick ~33k: families core, dep, widths complete, the others sampled by seed; thorough ~480k: eight families complete).")
+        "(quick ~36k: families core, dep, widths complete, the others sampled by seed; thorough ~530k: ten families complete).")
 
 FAM = "mapping"
 PKG = "rest/httpx"
@@ -31,12 +34,14 @@ KF_HEADER = "KF_HeaderNotDepCanonical"
 QUICK = [("FieldRulesGenCoreQ.cfg", "core", 1.0), ("FieldRulesGenDepQ.cfg", "dep", 1.0),
          ("FieldRulesGenSrcQ.cfg", "sources", 0.4), ("FieldRulesGenWrapQ.cfg", "wrappers", 0.25),
          ("FieldRulesGenWidthQ.cfg", "widths", 1.0), ("FieldRulesGenKeysQ.cfg", "keys", 0.4),
-         ("FieldRulesGenRefQ.cfg", "refs", 0.35)]
+         ("FieldRulesGenRefQ.cfg", "refs", 0.35),
+         ("FieldRulesGenDecQ.cfg", "decimals", 0.4), ("FieldRulesGenMultiQ.cfg", "multimaps", 0.35)]
 THOROUGH = [("FieldRulesGenCoreT.cfg", "core", 1.0), ("FieldRulesGenDepT.cfg", "dep", 1.0),
             ("FieldRulesGenSrcT.cfg", "sources", 1.0), ("FieldRulesGenSrc2T.cfg", "sources2", 1.0),
             ("FieldRulesGenWrapT.cfg", "wrappers", 1.0),
             ("FieldRulesGenWidthT.cfg", "widths", 1.0), ("FieldRulesGenKeysT.cfg", "keys", 1.0),
-            ("FieldRulesGenRefT.cfg", "refs", 1.0)]
+            ("FieldRulesGenRefT.cfg", "refs", 1.0),
+            ("FieldRulesGenDecT.cfg", "decimals", 1.0), ("FieldRulesGenMultiT.cfg", "multimaps", 1.0)]
 # sequences of calls (FieldRulesAlias.tla): family whose vectors are grouped by struct type, scripts per group,
 # fraction of the groups executed
 ALIAS_FAMILY = "refs"
@@ -61,7 +66,15 @@ def _locked_tmp(run):
 def check(run):
     thorough = run.tier == "thorough"
     run.assumptions += [
-        "numbers are carried in halves (n = 2*value): every probe value, range end, option and default is a multiple of 0.5",
+        "numbers are carried as integers in the unit of their field (f.u): halves in most families (every probe value, range "
+        "end, option and default a multiple of 0.5), twentieths in the decimal families (0.05 ... 2, with range ends and "
+        "options 0.1, 0.3, 0.7 that no binary float holds exactly); the clauses compare the numbers as supplied (exact), and "
+        "a float field holds a supplied number when it holds the value of its kind nearest to it (read back with strconv)",
+        "the form and header sources are multimaps: a key may carry no value at all (r.Header[k] = r.Header[k][:0], a key "
+        "put into r.Form with an empty list) or two values; whether a key without values is supplied, and which of two "
+        "values a scalar field takes, is left open (either verdict; no panic; whatever is accepted satisfies (a)-(d) with one "
+        "of the supplied values); typed Go values (UnmarshalKey) are not part of the decimal families (a float32 Go value "
+        "is its rounded number); a []T header field supplied with exactly one value is not enumerated (see LEVEL_NOTE)",
         "the driver renders each input class canonically per source (JSON/YAML block/TOML text, typed Go values for "
         "UnmarshalKey, strings for form/path/header); field names are a, b (+ wrapper keys in, l, m.k)",
         "null, an empty form value, wrongly typed values and a supplied field made superfluous by optional=dep / "
@@ -112,6 +125,17 @@ def check(run):
             lambda: run.model_check(FAM, "FieldRulesImpl", "FieldRulesImplBug4.cfg", workers=1, expect="violation",
                                     note="conf describing map[string]Struct by the element's field table violates "
                                          "InvCompleteness / InvValues (MapKeysVerbatim)"),
+            lambda: run.model_check(FAM, "FieldRulesImpl", "FieldRulesImplMC3.cfg", workers=w,
+                                    note="Layer I on the decimal families (numbers in twentieths, float32/float64/int, "
+                                         "JSON-number path, string path, string option): range checked on the number as supplied"),
+            lambda: run.model_check(FAM, "FieldRulesImpl", "FieldRulesImplMC4.cfg", workers=w,
+                                    note="Layer I on the parameter multimaps (form, header): keys without a value, keys with "
+                                         "two values, list fields, dependencies and unbound keys without a value"),
+            lambda: run.model_check(FAM, "FieldRulesImpl", "FieldRulesImplBug5.cfg", workers=1, expect="violation",
+                                    note="range-checking a float32 field after rounding to float32 violates InvSoundness "
+                                         "(0.1 passes (0.1:1]) / InvCompleteness (0.1 fails [0:0.1])"),
+            lambda: run.model_check(FAM, "FieldRulesImpl", "FieldRulesImplBug6.cfg", workers=1, expect="violation",
+                                    note="ParseHeaders indexing the first value of a header without values violates InvNoPanic"),
         ]
     gens = {}
     scripts = []
@@ -204,15 +228,20 @@ def check(run):
 
 
 LEVEL_TEXT = ("Exploration: the constraint semantics of the statement are a TLA+ specification (FieldRules.tla); TLC enumerates "
-              "the case analysis exhaustively within the declared families (quick ~33k, thorough ~480k vectors), every vector is "
+              "the case analysis exhaustively within the declared families (quick ~36k, thorough ~530k vectors), every vector is "
               "executed on the real unmarshallers through every public entry point and TLC judges every recorded outcome; "
               "sequences of calls with callers writing into their targets follow TLC-generated scripts. "
               "Design level: TLC checks that the specification is implementable and non-contradictory, that a model of the "
               "implementation's decision procedure satisfies it, that a memory model of list filling keeps targets isolated, "
-              "and that the pre-fix option rebuilding and three seeded defect classes (shared cached default, wide parse of "
-              "narrow integers, map field described as struct in conf) do not.")
+              "and that the pre-fix option rebuilding and five seeded defect classes (shared cached default, wide parse of "
+              "narrow integers, map field described as struct in conf, float32 range check after rounding, indexing the "
+              "first value of a header without values) do not.")
 LEVEL_NOTE = ("Not a proof over all struct types: types have 1-2 scalar fields (plus one wrapper level), values are multiples of "
-              "0.5 around one range/option family (plus the ends of the 8/16-bit widths), the ends of 32/64-bit kinds are out of reach, tag grammar corners (escapes, spaces, env=, inherit, custom validators, "
+              "0.5 around one range/option family (plus the ends of the 8/16-bit widths; plus twentieths around the decimal ends 0.1/0.3/0.7 "
+              "for float fields), the ends of 32/64-bit kinds are out of reach, parameter lists have 0, 1 or 2 values; a []T header "
+              "field supplied with exactly ONE value is not enumerated: ParseHeaders hands a single value on as a plain text and the "
+              "unmarshaller then wants JSON array text (`X-Tag: a` for `[]string header:\"X-Tag\"` is refused) - a candidate finding "
+              "outside the enumerated families; tag grammar corners (escapes, spaces, env=, inherit, custom validators, "
               "embedded structs, time.Duration, arrays of scalars with options) are not enumerated. Trusted: TLC/SANY, the Go "
               "toolchain, the driver's rendering of inputs and read-back of results.")
 TECHNIQUE = ("TLA+ specification of the statement (FieldRules), TLC-enumerated vectors replayed on the real code, TLC trace "
